@@ -210,7 +210,7 @@ func genFor(prop string, r *rng, n int) []string {
 	case "C04":
 		return genC04(r, n, false)
 	case "C05":
-		return genC05(r, n, false)
+		return append(genDigestPairs(r, n), genC05(r, n, false)...)
 	case "C06":
 		return genC06(r, n, false)
 	case "C07":
@@ -258,6 +258,7 @@ func genFor(prop string, r *rng, n int) []string {
 		out = append(out, genC02(r, k/2, false)...)
 		out = append(out, genC04(r, k/2, false)...)
 		out = append(out, genC03(r, k/2, false)...)
+		out = append(out, genC01(r, k/2, false)...) // includes the `derive` op (key slices with canaries; both derivation variants under js/wasm)
 		return out
 	case "C11":
 		// long mixed sequential history
@@ -325,6 +326,7 @@ func main() {
 	execOnly := flag.String("exec", "", "internal: run the op lines of this file against the implementation only, print answers")
 	corpus := flag.String("corpus", "", "directory of corpus .ops files to run first")
 	nFlag := flag.Int("n", 0, "number of generated cases (0 = tier default)")
+	dump := flag.String("dump", "", "write the op lines this run would execute to this file and exit")
 	worker := flag.Bool("worker", false, "internal: run as the supervised worker process")
 	progress := flag.String("progress", "", "internal: file to which the worker appends every op line before executing it")
 	flag.Parse()
@@ -347,6 +349,11 @@ func main() {
 		return
 	}
 
+	if *dump != "" {
+		ls, _ := buildLines(*prop, *tier, *seed, *nFlag, *corpus, *replay)
+		os.WriteFile(*dump, []byte(strings.Join(ls, "\n")+"\n"), 0o644)
+		return
+	}
 	if !*worker {
 		supervise(*prop, *tier, *seed, *driver, *outPath)
 		return
@@ -357,55 +364,7 @@ func main() {
 	}
 
 	start := time.Now()
-	r := &rng{s: *seed}
-	var lines []string
-	ncorpus := 0
-	if *replay != "" {
-		data, err := os.ReadFile(*replay)
-		if err != nil {
-			fmt.Fprintln(os.Stderr, err)
-			os.Exit(2)
-		}
-		lines = readOps(data)
-	} else {
-		if *corpus != "" {
-			ents, _ := os.ReadDir(*corpus)
-			for _, e := range ents {
-				if strings.HasSuffix(e.Name(), ".ops") {
-					data, _ := os.ReadFile(*corpus + "/" + e.Name())
-					ls := readOps(data)
-					lines = append(lines, ls...)
-					ncorpus += len(ls)
-				}
-			}
-		}
-		n := *nFlag
-		if n == 0 {
-			n = 1500
-			if *tier == "thorough" {
-				n = 40000
-			}
-		}
-		for _, l := range genFor(*prop, r, n) {
-			if !hasInternal {
-				switch kindOf(l) {
-				case "parse", "trunc", "fmt.short", "fmt.long", "fmt.dec", "pad", "derive":
-					continue
-				}
-			}
-			lines = append(lines, l)
-		}
-		if *prop == "C15" && *tier == "thorough" {
-			for _, s := range grammarEnum(1) {
-				lines = append(lines, "suite "+hxs(s))
-			}
-		} else if *prop == "C15" {
-			for _, s := range grammarEnum(20) {
-				lines = append(lines, "suite "+hxs(s))
-			}
-		}
-	}
-
+	lines, ncorpus := buildLines(*prop, *tier, *seed, *nFlag, *corpus, *replay)
 	rep := report{Property: *prop, Seed: *seed, Tier: *tier, OpsByKind: map[string]int{}, ImplOutcomes: map[string]int{}, CorpusReplayed: ncorpus, Mismatches: []mismatch{}, Samples: []string{}}
 	rep.Rule = "ops generated from structured generators (mostly valid inputs from the repo's own types plus a malformed stream) seeded by VERIF_SEED; " +
 		"a case counts as distinct non-trivial iff its canonical op line is new AND the implementation reached the modelled core " +
@@ -567,6 +526,60 @@ func main() {
 	if len(rep.Mismatches) > 0 {
 		os.Exit(1)
 	}
+}
+
+// buildLines: corpus first, then the generated ops of the property (or the replay file)
+func buildLines(prop, tier string, seed uint64, nFlag int, corpus, replay string) ([]string, int) {
+	r := &rng{s: seed}
+	var lines []string
+	ncorpus := 0
+	if replay != "" {
+		data, err := os.ReadFile(replay)
+		if err != nil {
+			fmt.Fprintln(os.Stderr, err)
+			os.Exit(2)
+		}
+		lines = readOps(data)
+	} else {
+		if corpus != "" {
+			ents, _ := os.ReadDir(corpus)
+			for _, e := range ents {
+				if strings.HasSuffix(e.Name(), ".ops") {
+					data, _ := os.ReadFile(corpus + "/" + e.Name())
+					ls := readOps(data)
+					lines = append(lines, ls...)
+					ncorpus += len(ls)
+				}
+			}
+		}
+		n := nFlag
+		if n == 0 {
+			n = 1500
+			if tier == "thorough" {
+				n = 40000
+			}
+		}
+		for _, l := range genFor(prop, r, n) {
+			if !hasInternal {
+				switch kindOf(l) {
+				case "parse", "trunc", "fmt.short", "fmt.long", "fmt.dec", "pad", "derive":
+					continue
+				}
+			}
+			lines = append(lines, l)
+		}
+		if prop == "C15" && tier == "thorough" {
+			for _, s := range grammarEnum(1) {
+				lines = append(lines, "suite "+hxs(s))
+			}
+		} else if prop == "C15" {
+			for _, s := range grammarEnum(20) {
+				lines = append(lines, "suite "+hxs(s))
+			}
+		}
+	}
+
+	return lines, ncorpus
 }
 
 // supervise re-runs this program as a worker.  An implementation that kills the process (runtime fatal error,
